@@ -341,6 +341,9 @@ func genPkg(t *rapid.T, m *modspec.Mod, idx int, dir, name string, o modOpts, la
 				pkgLevel = append(pkgLevel, n)
 			}
 		}
+		if rapid.IntRange(0, 7).Draw(t, "buildconstraint") == 0 {
+			f.Build = "!vtnever" // a build constraint that is satisfied
+		}
 		if len(f.Decls) > 0 && rapid.IntRange(0, 5).Draw(t, "linedirective") == 0 {
 			// a //line directive (goyacc, template compilers, cgo): declarations below it report positions in another file
 			at := rapid.IntRange(0, len(f.Decls)-1).Draw(t, "lineat")
